@@ -2,7 +2,7 @@
    canonical line out.  Written in Gallina so that the extracted binary and
    vm_compute inside coqc evaluate exactly the same function (run_line). *)
 From Coq Require Import ZArith QArith List Bool String Ascii.
-From Iso Require Import Spec.Cal Spec.Instant Spec.ZoneText Model.Num Model.Helpers Model.Duration Model.TimePoint Model.LocalZone.
+From Iso Require Import Spec.Cal Spec.Instant Spec.ZoneText Spec.Months Model.Num Model.Helpers Model.Duration Model.TimePoint Model.LocalZone.
 Import ListNotations.
 Open Scope string_scope.
 
@@ -70,6 +70,45 @@ Definition sh_z3 (t : Z * Z * Z) : string := let '(a, b, c) := t in unwords [sho
 Definition sh_z2 (t : Z * Z) : string := let '(a, b) := t in unwords [show_Z a; show_Z b].
 Definition sh_cmp (c : comparison) : string := match c with Lt => "LT" | Eq => "EQ" | Gt => "GT" end.
 
+
+(* ---- composite operations shared by C02/C04/C06 ---- *)
+Definition to_kind (md : mode) (k : string) (p : tp) : option tp :=
+  let conv := if String.eqb k "C" then to_calendar_date md (tdate p)
+              else if String.eqb k "O" then to_ordinal_date md (tdate p)
+              else if String.eqb k "W" then to_week_date md (tdate p)
+              else Some (tdate p) in
+  match conv with Some d => Some (with_date p d) | None => None end.
+
+(* (p + d) re-zoned and re-expressed: one operand of `pair` *)
+Definition respell (md : mode) (p : tp) (d : dur) (z : zone) (k : string) : option tp :=
+  match tp_add md p d with
+  | None => None
+  | Some p1 => match to_time_zone md p1 z with
+               | None => None
+               | Some p2 => to_kind md k p2
+               end
+  end.
+
+Definition hash_key_eqb (k1 k2 : Z * Z * Z * (Q * Q * Q)) : bool :=
+  let '(y1, m1, d1, (h1, i1, s1)) := k1 in
+  let '(y2, m2, d2, (h2, i2, s2)) := k2 in
+  (y1 =? y2)%Z && (m1 =? m2)%Z && (d1 =? d2)%Z && qeqb h1 h2 && qeqb i1 i2 && qeqb s1 s2.
+
+Definition pair_out (md : mode) (a b : tp) : string :=
+  let c := tp_cmp md a b in
+  let h := match tp_hash_key md a, tp_hash_key md b with
+           | Some k1, Some k2 => sh_bool (hash_key_eqb k1 k2) | _, _ => "ERR" end in
+  let d := tp_sub md a b in
+  let back := match d with
+              | Some dd => match tp_add md b dd with
+                           | Some r => unwords [sh_tp r; ";"; sh_opt sh_cmp (tp_cmp md r a)]
+                           | None => "ERR ; ERR" end
+              | None => "ERR ; ERR" end in
+  unwords [sh_tp a; ";"; sh_tp b; ";"; sh_opt sh_cmp c; ";"; h; ";"; sh_opt sh_dur d; ";"; back].
+
+Definition rOperand : rd (tp * dur * zone * string) :=
+  p <- rTp ;; d <- rDur ;; z <- rZone ;; k <- tok ;; ret (p, d, z, k).
+
 (* ---- operations ---- *)
 Definition op_table : list (string * rd string) :=
   [ ("leap", y <- rZ ;; ret (sh_bool (get_is_leap_year y)));
@@ -100,6 +139,38 @@ Definition op_table : list (string * rd string) :=
     ("s_valid", md <- rMode ;; p <- rTp ;; ret (sh_bool (valid_tp md p)));
     ("s_normal", md <- rMode ;; p <- rTp ;; ret (sh_bool (normal_tp md p)));
     ("s_len", x <- rDur ;; ret (show_Q (dur_len x)));
+    ("pair", md <- rMode ;; A <- rOperand ;; B <- rOperand ;;
+       ret (let '(pa, da, za, ka) := A in let '(pb, db, zb, kb) := B in
+            match respell md pa da za ka, respell md pb db zb kb with
+            | Some a, Some b => pair_out md a b
+            | _, _ => "ERR" end));
+    ("addsub", md <- rMode ;; p <- rTp ;; d <- rDur ;;
+       ret (match tp_add md p d with
+            | Some r => match tp_sub md r p with
+                        | Some d' => unwords [sh_dur d'; ";"; sh_bool (dur_eqb d' d)]
+                        | None => "ERR" end
+            | None => "ERR" end));
+    ("tolocal", md <- rMode ;; p <- rTp ;; z <- rZone ;; ret (sh_opt sh_tp (to_time_zone md p z)));
+    ("toutc", md <- rMode ;; p <- rTp ;; ret (sh_opt sh_tp (to_utc md p)));
+    ("s_monthshift", md <- rMode ;; n <- rZ ;; y <- rZ ;; m <- rZ ;; d <- rZ ;;
+       ret (if (n =? 0)%Z then sh_z3 (y, m, d) else sh_z3 (month_shift md n (y, m, d))));
+    ("addstaged", md <- rMode ;; p <- rTp ;; x <- rDur ;;
+       ret (match to_days x with
+            | DU ys mos ds h mi s =>
+              match tp_add md p (DU 0 0 ds h mi s) with
+              | Some p1 => match tp_add md p1 (DU 0 mos 0 0 0 0) with
+                           | Some p2 => sh_opt sh_tp (tp_add md p2 (DU ys 0 0 0 0 0))
+                           | None => "ERR" end
+              | None => "ERR" end
+            | _ => "ERR" end));
+    ("s_shiftdate", md <- rMode ;; n <- rZ ;; d <- rDate ;;
+       ret (match to_calendar_date md d with
+            | Some (Cal y m dd) => if (n =? 0)%Z then sh_z3 (y, m, dd) else sh_z3 (month_shift md n (y, m, dd))
+            | _ => "ERR" end));
+    ("addsteps", md <- rMode ;; p <- rTp ;; n <- rZ ;;
+       ret (sh_opt sh_tp (Pos.iter (fun o => match o with Some x => add_months md x (if (0 <? n)%Z then 1 else (-1))%Z | None => None end)
+                                   (Some p) (Z.to_pos (Z.abs n)))));
+    ("addmonths", md <- rMode ;; p <- rTp ;; n <- rZ ;; ret (sh_opt sh_tp (add_months md p n)));
     (* durations *)
     ("dadd", a <- rDur ;; b <- rDur ;; ret (sh_dur (dur_add a b)));
     ("dsub", a <- rDur ;; b <- rDur ;; ret (sh_dur (dur_sub a b)));
